@@ -210,3 +210,19 @@ Proof.
   - split; [discriminate|]. congruence.
   - congruence.
 Qed.
+
+(* ---- the class in plain words (what Props/C04.v states) ------------------------------------------------------------ *)
+Definition total {A} (d : dec A) : Prop := forall s r, d s <> (Panic, r) /\ d s <> (Err EFuel, r).
+
+Lemma total_of {A} (d : dec A) `{NoPanic A d} : total d.
+Proof. intros s r. split; [now apply no_panic|now apply no_fuel]. Qed.
+
+Lemma np_of_total {A} (d : dec A) : total d -> NoPanic d.
+Proof. intros Ht s. apply clean_iff. split; intros r; apply (Ht s r). Qed.
+
+Lemma rep_total {A} (d : dec A) n : total d -> total (rep n d).
+Proof. intros Ht. apply total_of. apply np_rep. now apply np_of_total. Qed.
+Lemma vec_total {A} (d : dec A) size : total d -> total (dec_vec size d).
+Proof. intros Ht. apply total_of. apply np_vec. now apply np_of_total. Qed.
+Lemma sized_total {A} (d : dec A) size n : total d -> total (dec_sized size n d).
+Proof. intros Ht. apply total_of. apply np_sized. now apply np_of_total. Qed.
